@@ -174,4 +174,8 @@ WITNESSES = [
      "old": "\tuint8_t nlri_len_b = (data->nlri->nlri_len + 7) / 8; // bits to bytes", "new": "\tuint8_t nlri_len_b = data->nlri->nlri_len / 8; // bits to bytes"},
     {"id": "C12.w-private-key-check-remembered", "rule": "C12.R5", "file": BU,
      "old": "\tchar *p = (char *)bytes_key;\n\t*priv_key = NULL;", "new": "\tstatic unsigned int calls;\n\tchar *p = (char *)bytes_key;\n\t*priv_key = NULL;\n\tif (calls++ > 1000)\n\t\treturn RTR_BGPSEC_LOAD_PRIV_KEY_ERROR;"},
+    {"id": "C12.w-size-from-the-first-signature-only", "rule": "C12.R4", "file": BU,
+     "old": "\t\tsig_segs_size += curr->sig_len + sizeof(curr->sig_len) + SKI_SIZE;", "new": "\t\tsig_segs_size += sig_segs->sig_len + sizeof(curr->sig_len) + SKI_SIZE;"},
+    {"id": "C12.w-wrapper-crosses-the-as-numbers", "rule": "C12.R5", "file": "rtrlib/rtr_mgr.c",
+     "old": "\treturn rtr_bgpsec_new(alg, safi, afi, my_as, target_as, nlri);", "new": "\treturn rtr_bgpsec_new(alg, safi, afi, target_as, my_as, nlri);"},
 ]
